@@ -53,12 +53,13 @@ func writeKEK(path string) (tink.AEAD, error) {
 }
 
 const cacheDocNew = `{"alpha":{"secret":{"Value":"bmV3LXZhbHVl","Version":7},"lastAccess":"1700000000"}}`
+const cacheDocOldLong = `{"alpha":{"secret":{"Value":"b2xk","Version":3},"lastAccess":"1600000000"},"beta":{"secret":{"Value":"YW4gb2xkIHNlY3JldCB0aGF0IGV4cGlyZXMgc29vbg==","Version":12},"lastAccess":"1600000001"},"gamma":{"secret":{"Value":"Zw==","Version":1},"lastAccess":"0"}}`
 const cacheDocOld = `{"alpha":{"secret":{"Value":"b2xk","Version":3},"lastAccess":"1600000000"}}`
 
 // fsChild runs in the traced process.  Files: <dir>/state/setec.db (or cache.json), <dir>/kek.json.
 func fsChild(o opts) error {
 	runtime.LockOSThread() // keep the operation's system calls on one thread
-	op := o.profile
+	op := strings.TrimSuffix(o.profile, "wide")
 	state := filepath.Join(o.dir, "state")
 	mark := func(s string) { os.Stderr.WriteString(s + "\n") }
 	if op == "cache" {
@@ -132,15 +133,33 @@ func okOr(err error) string {
 var fsOps = []string{"create", "putnew", "putver", "activate", "delver", "delete", "cache"}
 
 // prepare writes the pre-call files for op into dir and returns the canonical pre-state.
-func fsPrepare(dir, op string) (kek tink.AEAD, pre string, err error) {
+// An operation name ending in "wide" is the same operation on a file that already exists with a
+// wide mode (0644: restored from a backup, copied into place) and, for the cache, with contents
+// longer than what is about to be written.
+func fsPrepare(dir, opFull string) (kek tink.AEAD, pre string, err error) {
+	op := strings.TrimSuffix(opFull, "wide")
+	wide := opFull != op
+	defer func() {
+		if wide && err == nil {
+			target := "setec.db"
+			if op == "cache" {
+				target = "cache.json"
+			}
+			err = os.Chmod(filepath.Join(dir, "state", target), 0644)
+		}
+	}()
 	os.RemoveAll(dir)
 	state := filepath.Join(dir, "state")
 	if err = os.MkdirAll(state, 0700); err != nil {
 		return
 	}
 	if op == "cache" {
-		err = os.WriteFile(filepath.Join(state, "cache.json"), []byte(cacheDocOld), 0600)
-		return nil, hx(cacheDocOld), err
+		old := cacheDocOld
+		if wide {
+			old = cacheDocOldLong
+		}
+		err = os.WriteFile(filepath.Join(state, "cache.json"), []byte(old), 0600)
+		return nil, hx(old), err
 	}
 	kek, err = writeKEK(filepath.Join(dir, "kek.json"))
 	if err != nil || op == "create" {
@@ -161,6 +180,7 @@ func fsPrepare(dir, op string) (kek tink.AEAD, pre string, err error) {
 }
 
 func fsDiskState(dir, op string, kek tink.AEAD) string {
+	op = strings.TrimSuffix(op, "wide")
 	state := filepath.Join(dir, "state")
 	if op == "cache" {
 		bs, err := os.ReadFile(filepath.Join(state, "cache.json"))
@@ -319,7 +339,7 @@ func traceFS(o opts) error {
 	for _, op := range ops {
 		dir := filepath.Join(o.dir, "fs-"+op)
 		target := "setec.db"
-		if op == "cache" {
+		if strings.HasPrefix(op, "cache") {
 			target = "cache.json"
 		}
 		stateDir := filepath.Join(dir, "state")
@@ -433,7 +453,26 @@ func traceFS(o opts) error {
 			if renameIdx >= 0 && t.idx > renameIdx {
 				after = 1
 			}
-			emit("crash\top=%s\tidx=%d\tcall=%s\tafter=%d\tdisk=%s\ttmpleft=%d\tpre=%s\tpost=%s", op, t.idx, t.canon, after, fsDiskState(dir, op, kek2), tmpLeft(dir), pre, post)
+			diskAfterKill := fsDiskState(dir, op, kek2)
+			left := tmpLeft(dir)
+			// the restarted server goes on: a later save that makes the database shorter (whatever a
+			// killed save left lying around), after which the file must still open
+			followup := "-"
+			if kek2 != nil && !strings.HasPrefix(op, "cache") && op != "create" {
+				if d3, err := db.Open(filepath.Join(dir, "state", "setec.db"), kek2, audit.New(&sink{observer: true})); err != nil {
+					followup = "OPENERR"
+				} else {
+					su := superuser()
+					d3.Delete(su, "alpha")
+					d3.Delete(su, "beta")
+					if st := fsDiskState(dir, op, kek2); strings.HasPrefix(st, "ERR") || strings.HasPrefix(st, "ABSENT") || strings.HasPrefix(st, "OPENERR") {
+						followup = "UNREADABLE:" + st
+					} else {
+						followup = "ok"
+					}
+				}
+			}
+			emit("crash\top=%s\tidx=%d\tcall=%s\tafter=%d\tdisk=%s\ttmpleft=%d\tpre=%s\tpost=%s\tfollowup=%s", op, t.idx, t.canon, after, diskAfterKill, left, pre, post, followup)
 		}
 		os.RemoveAll(dir)
 	}
